@@ -91,13 +91,7 @@ func checkC04(c *Ctx) {
 	c04R4(c, p)
 	c04R5(c, p)
 	c04R6(c, p)
-	if c.Tier == "thorough" {
-		for _, o := range []loadOpts{{env: []string{"GOARCH=386"}}, {env: []string{"GOOS=windows"}}} {
-			p2 := mustLoad(c, o, "./benchfmt", "./benchunit", "./benchproc")
-			c04R1(c, p2)
-			c04R4(c, p2)
-		}
-	}
+
 }
 
 const tidyPkg = modPath + "/benchunit"
